@@ -125,6 +125,18 @@ def gen_buffer_builder():
             problems.append('fn %s no longer has the shape the model mirrors: %s' % (fn, g[:400]))
     if shift is None and not any('find_suitable_capacity' in p for p in problems):
         problems.append('growth expression `capacity + (capacity >> k)` not found')
+    ibl = None
+    try:
+        fa = _strip(open(os.path.join(core.REPO, 'src/fragment_assembler.rs')).read())
+        m = re.search(r'\bconst\s+DEFAULT_FRAGMENT_ASSEMBLY_BUFFER_LENGTH\s*:\s*isize\s*=\s*([^;]+);', fa)
+        if m:
+            ibl = _const_expr(m.group(1), env)
+        if not re.search(r'initial_buffer_length\.unwrap_or\(DEFAULT_FRAGMENT_ASSEMBLY_BUFFER_LENGTH\)', fa):
+            problems.append('FragmentAssembler::new no longer defaults to DEFAULT_FRAGMENT_ASSEMBLY_BUFFER_LENGTH')
+    except (OSError, ValueError) as e:
+        problems.append('fragment_assembler.rs: %s' % e)
+    if ibl is None:
+        problems.append('constant DEFAULT_FRAGMENT_ASSEMBLY_BUFFER_LENGTH not found')
     if problems:
         return False, 'buffer_builder.rs: ' + '; '.join(problems) + (' (table kept)' if os.path.exists(target) else '')
     lines = [
@@ -138,6 +150,8 @@ def gen_buffer_builder():
         'Definition BB_MIN_CAPACITY : Z := %d.' % consts['BUFFER_BUILDER_MIN_CAPACITY'],
         '(* find_suitable_capacity: let new_capacity = capacity + (capacity >> BB_GROW_SHIFT) *)',
         'Definition BB_GROW_SHIFT : Z := %d.' % shift,
+        '(* fragment_assembler.rs: const DEFAULT_FRAGMENT_ASSEMBLY_BUFFER_LENGTH: isize *)',
+        'Definition BB_DEFAULT_IBL : Z := %d.' % ibl,
         '',
     ]
     changed = core.write_if_changed(target, '\n'.join(lines))
